@@ -16,6 +16,8 @@ from .e2 import _v, _enc, _dec
 
 KEYS = ('k1', 'k2')
 VALS = (1, 2)
+# second value alphabet: falsy values (a stored None / 0 is still a stored value); chosen per configuration
+VALSETS = {'ints': (1, 2), 'falsy': (None, 0)}
 
 
 class SSys(object):
@@ -34,13 +36,14 @@ class SSys(object):
         self.mB = {}
         self.attached = 'NULL' if self.null else 'A'
         self.parked = 'NULL'
+        v = VALSETS[cfg.get('vals', 'ints')]
         if cfg.get('init') == 'conflict':
             # both sides hold k1 with different values
-            self.c['k1'] = 1
-            self.mc['k1'] = 1
+            self.c['k1'] = v[0]
+            self.mc['k1'] = v[0]
             if not self.null:
-                self.A['k1'] = 2
-                self.mA['k1'] = 2
+                self.A['k1'] = v[1]
+                self.mA['k1'] = v[1]
 
     def close(self):
         archmc.close(self.A)
@@ -55,7 +58,7 @@ class SSys(object):
     def state_key(self):
         """product of model state and implementation state: the implementation half holds what the cache
         is bound to *and what it has parked* (cache.__swap__), which no contents comparison shows"""
-        f = lambda d: tuple(sorted(d.items(), key=repr))
+        f = lambda d: tuple(sorted(((k, repr(v)) for k, v in d.items())))
         c = self.c
         try:
             impl = (f(dict(dict.items(c))), self._which(c.__archive__), self._which(c.__swap__), bool(c.archived()))
@@ -65,16 +68,19 @@ class SSys(object):
                 archmc.concrete_state(self.backend, self.root, self.A))
 
 
-def ops():
+def ops(vals=VALS):
+    VALS = vals
     out = []
     for k in KEYS:
         for v in VALS:
             out.append(('cset', k, v))
             out.append(('aset', k, v))
         out += [('cdel', k), ('cpop', k), ('adel', k), ('dumpk', k), ('loadk', k)]
-    out += [('cupdate', (('k1', 2), ('k2', 1))), ('cclear',), ('dump',), ('load',), ('dumpk', 'k1', 'k2'), ('loadk', 'k2', 'absent'),
+    out += [('cupdate', (('k1', VALS[1]), ('k2', VALS[0]))), ('cclear',), ('dump',), ('load',), ('dumpk', 'k1', 'k2'), ('loadk', 'k2', 'absent'),
+            # multi-key forms with the absent key first (a key the other side lacks must be skipped, not end the call)
+            ('loadk', 'absent', 'k2'), ('loadk', 'k1', 'k2'), ('dumpk', 'absent', 'k1'), ('dumpk', 'k2', 'k1'),
             ('loadk', 'absent'), ('sync',), ('syncclear',), ('archived',), ('archived', False), ('archived', True),
-            ('openB',), ('openA',), ('drop',), ('bset', 'k1', 2)]
+            ('openB',), ('openA',), ('drop',), ('bset', 'k1', VALS[1])]
     return out
 
 
@@ -239,7 +245,7 @@ def explore(task):
     cfg, max_depth, max_states = task
     res = {'counts': collections.Counter(), 'violations': [], 'samples': [], 'nontrivial': 0, 'outcomes': set(),
            'caps': [], 'config': cfg}
-    name = '%s init=%s' % (cfg['backend'], cfg.get('init', 'empty'))
+    name = '%s init=%s vals=%s' % (cfg['backend'], cfg.get('init', 'empty'), cfg.get('vals', 'ints'))
     S0 = SSys(cfg)
     seen = {S0.state_key()}
     S0.close()
@@ -247,7 +253,7 @@ def explore(task):
     res['counts']['states'] = 1
     capped = False
     nt = set()
-    allops = ops()
+    allops = ops(VALSETS[cfg.get('vals', 'ints')])
     while frontier:
         hist = frontier.popleft()
         if len(hist) >= max_depth:
@@ -304,6 +310,8 @@ def run(tier, seed):
     for b in backs:
         for init in ('empty', 'conflict'):
             cfgs.append({'backend': b, 'init': init})
+        if tier == 'thorough' or b in ('dict', 'dir', 'sql'):
+            cfgs.append({'backend': b, 'init': 'conflict', 'vals': 'falsy'})
     tasks = []
     for c in cfgs:
         mem = BACKENDS[c['backend']][0] in ('mem', 'null')
